@@ -16,6 +16,8 @@ import (
 
 func init() {
 	register(&Property{ID: "C08", Run: runC08, Mutants: []Mutant{
+		{Name: "x64 assembly prologue loop loses its default arm", File: "internal/native/parser/parser_file.go", Old: "\n\t\t\tdefault:\n\t\t\t\t// the first token of the code proper ends the prologue\n\t\t\t\tbreak Prologue\n", New: "\n\t\t\tcase token.EOF:\n\t\t\t\tbreak Prologue\n", Expect: "token-loop-progress"},
+		{Name: "native parser ignores tokens it does not know", File: "internal/native/parser/parser_file.go", Old: "\t\t\tdefault:\n\t\t\t\t// the first token of the code proper ends the prologue\n\t\t\t\tbreak Prologue\n", New: "\t\t\tdefault:\n\t\t\t\tcontinue Prologue\n", Expect: "token-loop-progress"},
 		{Name: "line-comment test reads the second byte before the first", File: "internal/printer/printer.go", Old: "\treturn text[0] == '#' || len(text) > 1 && text[1] == '/'", New: "\treturn text[1] == '/' || text[0] == '#'", Expect: "comment-marker-index"},
 		{Name: "comment text stripped of its marker before the '#' case", File: "internal/ast/ast.go", Old: "\t\tswitch {\n\t\tcase c[0] == '#':", New: "\t\tswitch {\n\t\tcase c[1] == '!':\n\t\t\tc = c[2:]\n\t\tcase c[0] == '#':", Expect: "comment-marker-index"},
 		{Name: "bad-digit report indexes the literal with the absolute offset", File: "internal/scanner/scanner.go", Old: "lit[invalid-offs]", New: "lit[invalid]", Expect: "offset-frame"},
@@ -333,6 +335,13 @@ func runC08(c *Ctx) {
 				if protected[pkgPath] && isBailoutValue(pn.X) {
 					// the package's own bail-out value: caught by the recover frame checked under rule 3
 					c.Count("bail_out_panics_in_recover_protected_parsers", 1)
+					continue
+				}
+				if isRecoveredValue(pn.X) {
+					// `if e := recover(); e != nil { if _, ok := e.(bailout); !ok { panic(e) } }`: the value being
+					// thrown is the one recover() just answered — a panic that was already under way is resumed, no
+					// new one is raised here (whatever the handler is called and wherever it is declared)
+					c.Count("resumed_foreign_panics_in_recover_frames", 1)
 					continue
 				}
 				sites = append(sites, site{key, p.Pos(pn.Pos()), short(CallPath(pred, f))})
